@@ -274,6 +274,13 @@ fn parse_ident(text: &str) -> IResult<&str, String> {
     let (rest, dash) = opt(tag("-"))(rest)?;
     if dash.is_some() {
         name.push('-');
+        // A custom property name: `--` followed by any name characters.
+        if let Some(rest) = rest.strip_prefix('-') {
+            name.push('-');
+            let (rest, chars) = many0(nmchar)(rest)?;
+            name.extend(chars);
+            return Ok((rest, name.into_iter().collect()));
+        }
     }
 
     let (rest, start) = nmstart(rest)?;
